@@ -385,8 +385,9 @@ def worker(case: Dict[str, Any]) -> CaseResult:
         cfg = write_case(root, sdl, queries, cfg_full, extra_files=extra_files or None)
         if case["idx"] % 4 == 3:
             # something was generated in this interpreter before: the same inputs with nothing configured
-            from ..genpkg import decoy_generations
-            stats["decoy_generations_before"] = decoy_generations(root, sdl, queries)
+            from ..genpkg import DECOY_KINDS, decoy_generations
+            stats["decoy_generations_before"] = decoy_generations(root, sdl, queries, kind=DECOY_KINDS[(case["idx"] // 4) % 4],
+                                                                      config={k_: cfg_full[k_] for k_ in ("enable_custom_operations", "plugins", "convert_to_snake_case", "async_client", "opentelemetry_client") if k_ in cfg_full})
         with warnings.catch_warnings():
             warnings.simplefilter("ignore")
             # every 6th C04 case invokes the command the way the README shows it first: without a strategy argument
